@@ -376,4 +376,7 @@ def run(ctx, replay=None):
     for c in ("Recurrence", "InitialScaling", "ResidualHistoryTruthful", "StopOnTolIsAccurate"):
         ctx.count(c, sum(1 for e in events if e["ev"] == {"Recurrence": "Iter", "InitialScaling": "Start", "ResidualHistoryTruthful": "Hist", "StopOnTolIsAccurate": "Return"}[c]))
     ctx.sample({"direction": "F/B", "trace_head": events[:4]})
+    # growth of the system specification: the deep-linear solver, whose inner calls are real-use inputs of this property
+    from .. import deeplinear
+    deeplinear.stage(ctx, quick=not thorough)
     return "model_checking"
